@@ -1,5 +1,6 @@
 """C04 — scheduling never breaks safety or well-formedness."""
 import time
+import common
 import rwsearch
 import export
 from props.C01 import TRUSTED
@@ -29,7 +30,7 @@ def run(ck):
             wf["wf"] += 1
         else:
             wf["illformed"] += 1
-            ck.violation("%s|ill-scoped|%s" % (op, site), dict(replay, result=str(q)),
+            ck.violation("%s|ill-scoped|%s" % (op, site), dict(replay, result=common.safe_str(q)),
                          "%s produced a procedure with a use outside the scope of its declaration" % op)
         if wf["compiled"] + wf["backend_rejected"] < ck.n(200, 1500) and (not s.deadline or time.time() < s.deadline):
             try:
@@ -38,7 +39,7 @@ def run(ck):
             except (MemGenError,) + BACKEND_REJECTIONS:
                 wf["backend_rejected"] += 1
             except Exception as e:
-                ck.violation("%s|compile-crash:%s|%s" % (op, type(e).__name__, site), dict(replay, result=str(q), error=str(e)[:300]),
+                ck.violation("%s|compile-crash:%s|%s" % (op, type(e).__name__, site), dict(replay, result=common.safe_str(q), error=str(e)[:300]),
                              "the derived procedure makes the backend crash with %s" % type(e).__name__)
 
     s.after_apply.append(static_checks)
